@@ -189,6 +189,17 @@ def main():
                 ans = do_compile_threads(req['texts'], req.get('nthreads', 4), req.get('opts', {}))
             elif k == 'compile_file':
                 ans = do_compile_file(req['path'], req.get('opts', {}))
+            elif k == 'file_history':
+                # ops in ONE process: ['write', path, text] puts a file on disk, ['compile', path] compiles it
+                res = []
+                for op in req['ops']:
+                    if op[0] == 'write':
+                        os.makedirs(os.path.dirname(op[1]), exist_ok=True)
+                        with open(op[1], 'w') as f:
+                            f.write(op[2])
+                    else:
+                        res.append(do_compile_file(op[1], req.get('opts', {})))
+                ans = {'r': 'many', 'results': res}
             elif k == 'tokens':
                 ans = do_tokens(req['text'], req.get('filtered', True), req.get('pos', False))
             elif k == 'parsedump':
